@@ -163,14 +163,6 @@ package server
 //@   modifies LockManagerWaitQueue.*, LockManagerRingQueue.*, LockManagerPriorityRingQueue.*, LockManagerPriorityRingQueueNode.*, E_LJPserver_Lock, E_Pserver_Lock, E_Pserver_LockManagerPriorityRingQueueNode, E_int32
 
 // free list of Lock objects
-//@ func (*LockQueue).Push
-//@   trusted queue internals, subject of C20
-//@   ensures forallref(l, Lock, lockSame(l))
-//@   modifies LockQueue.*, E_LJPserver_Lock, E_Pserver_Lock, E_int32
-//@ func (*LockQueue).PopRight
-//@   trusted queue internals, subject of C20
-//@   ensures forallref(l, Lock, lockSame(l))
-//@   modifies LockQueue.*, E_LJPserver_Lock, E_Pserver_Lock, E_int32
 
 // ---- LockManager: holders ----
 //@ func (*LockManager).FreeLock
@@ -521,13 +513,6 @@ package server
 //@ func (*LongWaitLockQueue).Push
 //@   trusted queue internals (long-wait table), subject of C20
 //@   modifies LongWaitLockQueue.*, LockQueue.*, Lock.longWaitIndex@lock, E_LJPserver_Lock, E_Pserver_Lock, E_int32
-//@ func (*LockQueue).Pop
-//@   trusted queue internals, subject of C20
-//@   ensures forallref(l, Lock, lockSame(l))
-//@   modifies LockQueue.*, E_LJPserver_Lock, E_Pserver_Lock, E_int32
-//@ func (*LockQueue).Rellac
-//@   trusted queue internals, subject of C20
-//@   modifies LockQueue.*, E_LJPserver_Lock, E_Pserver_Lock, E_int32
 //@ func (*LongWaitLockQueue).Pop
 //@   trusted queue internals (long-wait table), subject of C20
 //@   modifies LongWaitLockQueue.*, LockQueue.*, Lock.longWaitIndex, E_LJPserver_Lock, E_Pserver_Lock, E_int32
@@ -683,4 +668,251 @@ package server
 //@ func (*BinaryServerProtocol).GetLockCommandLocked
 //@   requires self != nil
 //@   ensures result != nil
-//@   modifies LockCommandQueue.*
+//@   modifies LockCommandQueue.*, E_Pprotocol_LockCommand
+
+// =====================================================================================================
+// C20: the segmented array deques refine a plain deque.
+// Abstract view: the cells between the head cursor (headNodeIndex, headQueueIndex) and the tail cursor
+// (tailNodeIndex, tailQueueIndex) in node-major order; qInv is the representation invariant that every
+// public operation preserves, and each operation's postcondition describes the whole view (which cell
+// changed, where the cursors went, that every other cell kept its element).
+// =====================================================================================================
+//@ spec func qCell(q, n, k) = q.queues[n][k]
+//@ spec func qEmpty(q) = q.headNodeIndex == q.tailNodeIndex && q.headQueueIndex == q.tailQueueIndex
+//@ spec func qNodesOk(q) = forall(i, 0, q.nodeIndex+1, !isnil(q.queues[i]) && allocated(q.queues[i]) && off(q.queues[i]) == 0 && len(q.queues[i]) == q.nodeQueueSizes[i] && q.nodeQueueSizes[i] >= 1 && q.nodeQueueSizes[i] <= 0x3ffffff) && forall(i, q.nodeIndex+1, q.nodeSize, isnil(q.queues[i])) && forall(i, 0, q.nodeIndex+1, forall(j, 0, q.nodeIndex+1, implies(i != j, arr(q.queues[i]) != arr(q.queues[j]))))
+//@ spec func qShape(q) = q != nil && len(q.queues) == q.nodeSize && len(q.nodeQueueSizes) == q.nodeSize && q.baseNodeSize >= 1 && arr(q.queues) != 0 && arr(q.nodeQueueSizes) != 0 && 0 <= q.nodeIndex && q.nodeIndex < q.nodeSize && 0 <= q.rellacTailNodeIndex && q.rellacTailNodeIndex < 0x40000000
+//@ spec func qCursorsOk(q) = 0 <= q.headNodeIndex && q.headNodeIndex <= q.tailNodeIndex && q.tailNodeIndex <= q.nodeIndex && q.headQueue == q.queues[q.headNodeIndex] && q.headQueueSize == q.nodeQueueSizes[q.headNodeIndex] && q.tailQueue == q.queues[q.tailNodeIndex] && q.tailQueueSize == q.nodeQueueSizes[q.tailNodeIndex] && 0 <= q.headQueueIndex && q.headQueueIndex < q.headQueueSize && 0 <= q.tailQueueIndex && q.tailQueueIndex < q.tailQueueSize && (q.headNodeIndex < q.tailNodeIndex || q.headQueueIndex <= q.tailQueueIndex)
+//@ spec func qInv(q) = qShape(q) && 1 <= q.queueSize && q.queueSize <= 0x3ffffff && qNodesOk(q) && qCursorsOk(q)
+// resource assumption of the growing operations: fewer than 2^30 nodes (every node holds at least one element)
+//@ spec func qBounded(q) = q.nodeSize < 0x40000000
+//@ spec func qOthersSame(q, n0, k0) = forall(n, 0, old(q.nodeIndex)+1, forall(k, 0, old(q.nodeQueueSizes[n]), implies(!(n == n0 && k == k0), qCell(q, n, k) == old(qCell(q, n, k)))))
+//@ spec func qAllSame(q) = forall(n, 0, old(q.nodeIndex)+1, forall(k, 0, old(q.nodeQueueSizes[n]), qCell(q, n, k) == old(qCell(q, n, k))))
+//@ spec func qSizesSame(q) = q.nodeIndex >= old(q.nodeIndex) && forall(n, 0, old(q.nodeIndex)+1, q.nodeQueueSizes[n] == old(q.nodeQueueSizes[n]))
+//@ spec func qHeadSame(q) = q.headNodeIndex == old(q.headNodeIndex) && q.headQueueIndex == old(q.headQueueIndex)
+//@ spec func qTailSame(q) = q.tailNodeIndex == old(q.tailNodeIndex) && q.tailQueueIndex == old(q.tailQueueIndex)
+//@ spec func qStorageSame(q) = q.queues == old(q.queues) && q.nodeQueueSizes == old(q.nodeQueueSizes) && q.nodeSize == old(q.nodeSize) && q.baseNodeSize == old(q.baseNodeSize)
+
+// ---- LockQueue ----
+//@ func NewLockQueue
+//@   requires C20.ctor: baseNodeSize >= 1 && nodeSize >= 1 && nodeSize < 0x40000000 && queueSize >= 1 && queueSize <= 0x3ffffff
+//@   ensures C20.new: qInv(result) && qEmpty(result) && result.headNodeIndex == 0 && result.headQueueIndex == 0 && result.nodeSize == nodeSize && fresh(result)
+
+//@ func (*LockQueue).Push
+//@   requires C20.inv: qInv(self) && qBounded(self)
+//@   ensures forallref(l, Lock, lockSame(l))
+//@   ensures C20.push.inv: qInv(self)
+//@   ensures C20.push.view: qCell(self, old(self.tailNodeIndex), old(self.tailQueueIndex)) == lock && qOthersSame(self, old(self.tailNodeIndex), old(self.tailQueueIndex)) && qSizesSame(self)
+//@   ensures C20.push.cursors: qHeadSame(self) && ite(old(self.tailQueueIndex) + 1 < old(self.tailQueueSize), self.tailNodeIndex == old(self.tailNodeIndex) && self.tailQueueIndex == old(self.tailQueueIndex) + 1, self.tailNodeIndex == old(self.tailNodeIndex) + 1 && self.tailQueueIndex == 0)
+//@   ensures C20.push.ok: isnil(result)
+//@   modifies LockQueue.*, E_LJPserver_Lock, E_Pserver_Lock, E_int32
+
+//@ func (*LockQueue).PushLeft
+//@   requires C20.inv: qInv(self)
+//@   ensures C20.pushleft.inv: qInv(self) && qSizesSame(self) && qTailSame(self)
+//@   ensures C20.pushleft.full: implies(old(self.headNodeIndex) == 0 && old(self.headQueueIndex) == 0, !isnil(result) && qHeadSame(self) && qAllSame(self))
+//@   ensures C20.pushleft.view: implies(!(old(self.headNodeIndex) == 0 && old(self.headQueueIndex) == 0), isnil(result) && qCell(self, self.headNodeIndex, self.headQueueIndex) == lock && qOthersSame(self, self.headNodeIndex, self.headQueueIndex) && ite(old(self.headQueueIndex) > 0, self.headNodeIndex == old(self.headNodeIndex) && self.headQueueIndex == old(self.headQueueIndex) - 1, self.headNodeIndex == old(self.headNodeIndex) - 1 && self.headQueueIndex == old(self.nodeQueueSizes[self.headNodeIndex - 1]) - 1))
+//@   modifies LockQueue.*, E_Pserver_Lock
+
+//@ func (*LockQueue).Pop
+//@   requires C20.inv: qInv(self)
+//@   ensures forallref(l, Lock, lockSame(l))
+//@   ensures C20.pop.inv: qInv(self) && qSizesSame(self) && qTailSame(self)
+//@   ensures C20.pop.empty: implies(old(qEmpty(self)), result == nil && qHeadSame(self) && qAllSame(self))
+//@   ensures C20.pop.view: implies(!old(qEmpty(self)), result == old(qCell(self, self.headNodeIndex, self.headQueueIndex)) && qCell(self, old(self.headNodeIndex), old(self.headQueueIndex)) == nil && qOthersSame(self, old(self.headNodeIndex), old(self.headQueueIndex)) && ite(old(self.headQueueIndex) + 1 < old(self.headQueueSize), self.headNodeIndex == old(self.headNodeIndex) && self.headQueueIndex == old(self.headQueueIndex) + 1, self.headNodeIndex == old(self.headNodeIndex) + 1 && self.headQueueIndex == 0))
+//@   modifies LockQueue.*, E_Pserver_Lock
+
+//@ func (*LockQueue).PopRight
+//@   requires C20.inv: qInv(self)
+//@   ensures forallref(l, Lock, lockSame(l))
+//@   ensures C20.popright.inv: qInv(self) && qSizesSame(self) && qHeadSame(self)
+//@   ensures C20.popright.empty: implies(old(qEmpty(self)), result == nil && qTailSame(self) && qAllSame(self))
+//@   ensures C20.popright.view: implies(!old(qEmpty(self)), result == ite(old(self.tailQueueIndex) > 0, old(qCell(self, self.tailNodeIndex, self.tailQueueIndex - 1)), old(qCell(self, self.tailNodeIndex - 1, self.nodeQueueSizes[self.tailNodeIndex - 1] - 1))) && qCell(self, self.tailNodeIndex, self.tailQueueIndex) == nil && qOthersSame(self, self.tailNodeIndex, self.tailQueueIndex) && ite(old(self.tailQueueIndex) > 0, self.tailNodeIndex == old(self.tailNodeIndex) && self.tailQueueIndex == old(self.tailQueueIndex) - 1, self.tailNodeIndex == old(self.tailNodeIndex) - 1 && self.tailQueueIndex == old(self.nodeQueueSizes[self.tailNodeIndex - 1]) - 1))
+//@   modifies LockQueue.*, E_Pserver_Lock
+
+//@ func (*LockQueue).Head
+//@   requires C20.inv: qInv(self)
+//@   ensures C20.head: implies(qEmpty(self), result == nil) && implies(!qEmpty(self), result == qCell(self, self.headNodeIndex, self.headQueueIndex))
+//@   modifies nothing
+
+//@ func (*LockQueue).Tail
+//@   requires C20.inv: qInv(self)
+//@   ensures C20.tail: implies(qEmpty(self), result == nil) && implies(!qEmpty(self) && self.tailQueueIndex > 0, result == qCell(self, self.tailNodeIndex, self.tailQueueIndex - 1)) && implies(!qEmpty(self) && self.tailQueueIndex == 0, result == qCell(self, self.tailNodeIndex - 1, self.nodeQueueSizes[self.tailNodeIndex - 1] - 1))
+//@   modifies nothing
+
+//@ func (*LockQueue).Len
+//@   requires C20.inv: qInv(self)
+//@   loop#1 invariant self.headNodeIndex + 1 <= i && i <= self.tailNodeIndex && implies(i == self.headNodeIndex + 1, queueLen == self.nodeQueueSizes[self.headNodeIndex] - self.headQueueIndex)
+//@   ensures C20.len.zero: implies(qEmpty(self), result == 0)
+//@   ensures C20.len.node: implies(self.headNodeIndex == self.tailNodeIndex, result == self.tailQueueIndex - self.headQueueIndex)
+//@   ensures C20.len.next: implies(self.headNodeIndex + 1 == self.tailNodeIndex, result == self.nodeQueueSizes[self.headNodeIndex] - self.headQueueIndex + self.tailQueueIndex)
+//@   modifies nothing
+
+//@ func (*LockQueue).Reset
+//@   requires C20.inv: qInv(self)
+//@   loop#1 invariant qShape(self) && qNodesOk(self) && qStorageSame(self) && self.nodeIndex <= old(self.nodeIndex)
+//@   ensures C20.reset: qInv(self) && qEmpty(self) && self.headNodeIndex == 0 && self.headQueueIndex == 0 && isnil(result)
+//@   modifies LockQueue.*, E_LJPserver_Lock, E_int32
+
+//@ func (*LockQueue).Rellac
+//@   requires C20.inv: qInv(self) && qBounded(self)
+//@   loop#1 invariant qShape(self) && qNodesOk(self) && qStorageSame(self) && self.nodeIndex <= old(self.nodeIndex) && baseNodeSize >= 1 && self.tailNodeIndex == old(self.tailNodeIndex)
+//@   ensures C20.rellac: qInv(self) && qEmpty(self) && self.headNodeIndex == 0 && self.headQueueIndex == 0 && isnil(result)
+//@   modifies LockQueue.*, E_LJPserver_Lock, E_int32
+
+//@ func (*LockQueue).IterNodes
+//@   requires C20.inv: qInv(self)
+//@   ensures C20.iternodes: arr(result) == arr(self.queues) && off(result) == off(self.queues) + self.headNodeIndex && len(result) == self.tailNodeIndex - self.headNodeIndex + 1
+//@   modifies nothing
+
+//@ func (*LockQueue).IterNodeQueues
+//@   requires C20.inv: qInv(self) && 0 <= index && index <= self.tailNodeIndex - self.headNodeIndex
+//@   ensures C20.iterqueues: arr(result) == arr(self.queues[self.headNodeIndex + index]) && off(result) == ite(index == 0, self.headQueueIndex, 0) && off(result) + len(result) == ite(self.headNodeIndex + index == self.tailNodeIndex, self.tailQueueIndex, self.nodeQueueSizes[self.headNodeIndex + index])
+//@   modifies nothing
+
+// ---- LockCommandQueue ----
+//@ func NewLockCommandQueue
+//@   requires C20.ctor: baseNodeSize >= 1 && nodeSize >= 1 && nodeSize < 0x40000000 && queueSize >= 1 && queueSize <= 0x3ffffff
+//@   ensures C20.new: qInv(result) && qEmpty(result) && result.headNodeIndex == 0 && result.headQueueIndex == 0 && result.nodeSize == nodeSize && fresh(result)
+
+//@ func (*LockCommandQueue).Push
+//@   requires C20.inv: qInv(self) && qBounded(self)
+//@   ensures C20.push.inv: qInv(self)
+//@   ensures C20.push.view: qCell(self, old(self.tailNodeIndex), old(self.tailQueueIndex)) == lock && qOthersSame(self, old(self.tailNodeIndex), old(self.tailQueueIndex)) && qSizesSame(self)
+//@   ensures C20.push.cursors: qHeadSame(self) && ite(old(self.tailQueueIndex) + 1 < old(self.tailQueueSize), self.tailNodeIndex == old(self.tailNodeIndex) && self.tailQueueIndex == old(self.tailQueueIndex) + 1, self.tailNodeIndex == old(self.tailNodeIndex) + 1 && self.tailQueueIndex == 0)
+//@   ensures C20.push.ok: isnil(result)
+//@   modifies LockCommandQueue.*, E_LJPprotocol_LockCommand, E_Pprotocol_LockCommand, E_int32
+
+//@ func (*LockCommandQueue).PushLeft
+//@   requires C20.inv: qInv(self)
+//@   ensures C20.pushleft.inv: qInv(self) && qSizesSame(self) && qTailSame(self)
+//@   ensures C20.pushleft.full: implies(old(self.headNodeIndex) == 0 && old(self.headQueueIndex) == 0, !isnil(result) && qHeadSame(self) && qAllSame(self))
+//@   ensures C20.pushleft.view: implies(!(old(self.headNodeIndex) == 0 && old(self.headQueueIndex) == 0), isnil(result) && qCell(self, self.headNodeIndex, self.headQueueIndex) == lock && qOthersSame(self, self.headNodeIndex, self.headQueueIndex) && ite(old(self.headQueueIndex) > 0, self.headNodeIndex == old(self.headNodeIndex) && self.headQueueIndex == old(self.headQueueIndex) - 1, self.headNodeIndex == old(self.headNodeIndex) - 1 && self.headQueueIndex == old(self.nodeQueueSizes[self.headNodeIndex - 1]) - 1))
+//@   modifies LockCommandQueue.*, E_Pprotocol_LockCommand
+
+//@ func (*LockCommandQueue).Pop
+//@   requires C20.inv: qInv(self)
+//@   ensures C20.pop.inv: qInv(self) && qSizesSame(self) && qTailSame(self)
+//@   ensures C20.pop.empty: implies(old(qEmpty(self)), result == nil && qHeadSame(self) && qAllSame(self))
+//@   ensures C20.pop.view: implies(!old(qEmpty(self)), result == old(qCell(self, self.headNodeIndex, self.headQueueIndex)) && qCell(self, old(self.headNodeIndex), old(self.headQueueIndex)) == nil && qOthersSame(self, old(self.headNodeIndex), old(self.headQueueIndex)) && ite(old(self.headQueueIndex) + 1 < old(self.headQueueSize), self.headNodeIndex == old(self.headNodeIndex) && self.headQueueIndex == old(self.headQueueIndex) + 1, self.headNodeIndex == old(self.headNodeIndex) + 1 && self.headQueueIndex == 0))
+//@   modifies LockCommandQueue.*, E_Pprotocol_LockCommand
+
+//@ func (*LockCommandQueue).PopRight
+//@   requires C20.inv: qInv(self)
+//@   ensures C20.popright.inv: qInv(self) && qSizesSame(self) && qHeadSame(self)
+//@   ensures C20.popright.empty: implies(old(qEmpty(self)), result == nil && qTailSame(self) && qAllSame(self))
+//@   ensures C20.popright.view: implies(!old(qEmpty(self)), result == ite(old(self.tailQueueIndex) > 0, old(qCell(self, self.tailNodeIndex, self.tailQueueIndex - 1)), old(qCell(self, self.tailNodeIndex - 1, self.nodeQueueSizes[self.tailNodeIndex - 1] - 1))) && qCell(self, self.tailNodeIndex, self.tailQueueIndex) == nil && qOthersSame(self, self.tailNodeIndex, self.tailQueueIndex) && ite(old(self.tailQueueIndex) > 0, self.tailNodeIndex == old(self.tailNodeIndex) && self.tailQueueIndex == old(self.tailQueueIndex) - 1, self.tailNodeIndex == old(self.tailNodeIndex) - 1 && self.tailQueueIndex == old(self.nodeQueueSizes[self.tailNodeIndex - 1]) - 1))
+//@   modifies LockCommandQueue.*, E_Pprotocol_LockCommand
+
+//@ func (*LockCommandQueue).Head
+//@   requires C20.inv: qInv(self)
+//@   ensures C20.head: implies(qEmpty(self), result == nil) && implies(!qEmpty(self), result == qCell(self, self.headNodeIndex, self.headQueueIndex))
+//@   modifies nothing
+
+//@ func (*LockCommandQueue).Tail
+//@   requires C20.inv: qInv(self)
+//@   ensures C20.tail: implies(qEmpty(self), result == nil) && implies(!qEmpty(self) && self.tailQueueIndex > 0, result == qCell(self, self.tailNodeIndex, self.tailQueueIndex - 1)) && implies(!qEmpty(self) && self.tailQueueIndex == 0, result == qCell(self, self.tailNodeIndex - 1, self.nodeQueueSizes[self.tailNodeIndex - 1] - 1))
+//@   modifies nothing
+
+//@ func (*LockCommandQueue).Len
+//@   requires C20.inv: qInv(self)
+//@   loop#1 invariant self.headNodeIndex + 1 <= i && i <= self.tailNodeIndex && implies(i == self.headNodeIndex + 1, queueLen == self.nodeQueueSizes[self.headNodeIndex] - self.headQueueIndex)
+//@   ensures C20.len.zero: implies(qEmpty(self), result == 0)
+//@   ensures C20.len.node: implies(self.headNodeIndex == self.tailNodeIndex, result == self.tailQueueIndex - self.headQueueIndex)
+//@   ensures C20.len.next: implies(self.headNodeIndex + 1 == self.tailNodeIndex, result == self.nodeQueueSizes[self.headNodeIndex] - self.headQueueIndex + self.tailQueueIndex)
+//@   modifies nothing
+
+//@ func (*LockCommandQueue).Reset
+//@   requires C20.inv: qInv(self)
+//@   loop#1 invariant qShape(self) && qNodesOk(self) && qStorageSame(self) && self.nodeIndex <= old(self.nodeIndex)
+//@   ensures C20.reset: qInv(self) && qEmpty(self) && self.headNodeIndex == 0 && self.headQueueIndex == 0 && isnil(result)
+//@   modifies LockCommandQueue.*, E_LJPprotocol_LockCommand, E_int32
+
+//@ func (*LockCommandQueue).Rellac
+//@   requires C20.inv: qInv(self) && qBounded(self)
+//@   loop#1 invariant qShape(self) && qNodesOk(self) && qStorageSame(self) && self.nodeIndex <= old(self.nodeIndex) && baseNodeSize >= 1 && self.tailNodeIndex == old(self.tailNodeIndex)
+//@   ensures C20.rellac: qInv(self) && qEmpty(self) && self.headNodeIndex == 0 && self.headQueueIndex == 0 && isnil(result)
+//@   modifies LockCommandQueue.*, E_LJPprotocol_LockCommand, E_int32
+
+//@ func (*LockCommandQueue).IterNodes
+//@   requires C20.inv: qInv(self)
+//@   ensures C20.iternodes: arr(result) == arr(self.queues) && off(result) == off(self.queues) + self.headNodeIndex && len(result) == self.tailNodeIndex - self.headNodeIndex + 1
+//@   modifies nothing
+
+//@ func (*LockCommandQueue).IterNodeQueues
+//@   requires C20.inv: qInv(self) && 0 <= index && index <= self.tailNodeIndex - self.headNodeIndex
+//@   ensures C20.iterqueues: arr(result) == arr(self.queues[self.headNodeIndex + index]) && off(result) == ite(index == 0, self.headQueueIndex, 0) && off(result) + len(result) == ite(self.headNodeIndex + index == self.tailNodeIndex, self.tailQueueIndex, self.nodeQueueSizes[self.headNodeIndex + index])
+//@   modifies nothing
+
+// ---- LockManagerQueue ----
+//@ func NewLockManagerQueue
+//@   requires C20.ctor: baseNodeSize >= 1 && nodeSize >= 1 && nodeSize < 0x40000000 && queueSize >= 1 && queueSize <= 0x3ffffff
+//@   ensures C20.new: qInv(result) && qEmpty(result) && result.headNodeIndex == 0 && result.headQueueIndex == 0 && result.nodeSize == nodeSize && fresh(result)
+
+//@ func (*LockManagerQueue).Push
+//@   requires C20.inv: qInv(self) && qBounded(self)
+//@   ensures C20.push.inv: qInv(self)
+//@   ensures C20.push.view: qCell(self, old(self.tailNodeIndex), old(self.tailQueueIndex)) == lockManager && qOthersSame(self, old(self.tailNodeIndex), old(self.tailQueueIndex)) && qSizesSame(self)
+//@   ensures C20.push.cursors: qHeadSame(self) && ite(old(self.tailQueueIndex) + 1 < old(self.tailQueueSize), self.tailNodeIndex == old(self.tailNodeIndex) && self.tailQueueIndex == old(self.tailQueueIndex) + 1, self.tailNodeIndex == old(self.tailNodeIndex) + 1 && self.tailQueueIndex == 0)
+//@   ensures C20.push.ok: isnil(result)
+//@   modifies LockManagerQueue.*, E_LJPserver_LockManager, E_Pserver_LockManager, E_int32
+
+//@ func (*LockManagerQueue).PushLeft
+//@   requires C20.inv: qInv(self)
+//@   ensures C20.pushleft.inv: qInv(self) && qSizesSame(self) && qTailSame(self)
+//@   ensures C20.pushleft.full: implies(old(self.headNodeIndex) == 0 && old(self.headQueueIndex) == 0, !isnil(result) && qHeadSame(self) && qAllSame(self))
+//@   ensures C20.pushleft.view: implies(!(old(self.headNodeIndex) == 0 && old(self.headQueueIndex) == 0), isnil(result) && qCell(self, self.headNodeIndex, self.headQueueIndex) == lockManager && qOthersSame(self, self.headNodeIndex, self.headQueueIndex) && ite(old(self.headQueueIndex) > 0, self.headNodeIndex == old(self.headNodeIndex) && self.headQueueIndex == old(self.headQueueIndex) - 1, self.headNodeIndex == old(self.headNodeIndex) - 1 && self.headQueueIndex == old(self.nodeQueueSizes[self.headNodeIndex - 1]) - 1))
+//@   modifies LockManagerQueue.*, E_Pserver_LockManager
+
+//@ func (*LockManagerQueue).Pop
+//@   requires C20.inv: qInv(self)
+//@   ensures C20.pop.inv: qInv(self) && qSizesSame(self) && qTailSame(self)
+//@   ensures C20.pop.empty: implies(old(qEmpty(self)), result == nil && qHeadSame(self) && qAllSame(self))
+//@   ensures C20.pop.view: implies(!old(qEmpty(self)), result == old(qCell(self, self.headNodeIndex, self.headQueueIndex)) && qCell(self, old(self.headNodeIndex), old(self.headQueueIndex)) == nil && qOthersSame(self, old(self.headNodeIndex), old(self.headQueueIndex)) && ite(old(self.headQueueIndex) + 1 < old(self.headQueueSize), self.headNodeIndex == old(self.headNodeIndex) && self.headQueueIndex == old(self.headQueueIndex) + 1, self.headNodeIndex == old(self.headNodeIndex) + 1 && self.headQueueIndex == 0))
+//@   modifies LockManagerQueue.*, E_Pserver_LockManager
+
+//@ func (*LockManagerQueue).PopRight
+//@   requires C20.inv: qInv(self)
+//@   ensures C20.popright.inv: qInv(self) && qSizesSame(self) && qHeadSame(self)
+//@   ensures C20.popright.empty: implies(old(qEmpty(self)), result == nil && qTailSame(self) && qAllSame(self))
+//@   ensures C20.popright.view: implies(!old(qEmpty(self)), result == ite(old(self.tailQueueIndex) > 0, old(qCell(self, self.tailNodeIndex, self.tailQueueIndex - 1)), old(qCell(self, self.tailNodeIndex - 1, self.nodeQueueSizes[self.tailNodeIndex - 1] - 1))) && qCell(self, self.tailNodeIndex, self.tailQueueIndex) == nil && qOthersSame(self, self.tailNodeIndex, self.tailQueueIndex) && ite(old(self.tailQueueIndex) > 0, self.tailNodeIndex == old(self.tailNodeIndex) && self.tailQueueIndex == old(self.tailQueueIndex) - 1, self.tailNodeIndex == old(self.tailNodeIndex) - 1 && self.tailQueueIndex == old(self.nodeQueueSizes[self.tailNodeIndex - 1]) - 1))
+//@   modifies LockManagerQueue.*, E_Pserver_LockManager
+
+//@ func (*LockManagerQueue).Head
+//@   requires C20.inv: qInv(self)
+//@   ensures C20.head: implies(qEmpty(self), result == nil) && implies(!qEmpty(self), result == qCell(self, self.headNodeIndex, self.headQueueIndex))
+//@   modifies nothing
+
+//@ func (*LockManagerQueue).Tail
+//@   requires C20.inv: qInv(self)
+//@   ensures C20.tail: implies(qEmpty(self), result == nil) && implies(!qEmpty(self) && self.tailQueueIndex > 0, result == qCell(self, self.tailNodeIndex, self.tailQueueIndex - 1)) && implies(!qEmpty(self) && self.tailQueueIndex == 0, result == qCell(self, self.tailNodeIndex - 1, self.nodeQueueSizes[self.tailNodeIndex - 1] - 1))
+//@   modifies nothing
+
+//@ func (*LockManagerQueue).Len
+//@   requires C20.inv: qInv(self)
+//@   loop#1 invariant self.headNodeIndex + 1 <= i && i <= self.tailNodeIndex && implies(i == self.headNodeIndex + 1, queueLen == self.nodeQueueSizes[self.headNodeIndex] - self.headQueueIndex)
+//@   ensures C20.len.zero: implies(qEmpty(self), result == 0)
+//@   ensures C20.len.node: implies(self.headNodeIndex == self.tailNodeIndex, result == self.tailQueueIndex - self.headQueueIndex)
+//@   ensures C20.len.next: implies(self.headNodeIndex + 1 == self.tailNodeIndex, result == self.nodeQueueSizes[self.headNodeIndex] - self.headQueueIndex + self.tailQueueIndex)
+//@   modifies nothing
+
+//@ func (*LockManagerQueue).Reset
+//@   requires C20.inv: qInv(self)
+//@   loop#1 invariant qShape(self) && qNodesOk(self) && qStorageSame(self) && self.nodeIndex <= old(self.nodeIndex)
+//@   ensures C20.reset: qInv(self) && qEmpty(self) && self.headNodeIndex == 0 && self.headQueueIndex == 0 && isnil(result)
+//@   modifies LockManagerQueue.*, E_LJPserver_LockManager, E_int32
+
+//@ func (*LockManagerQueue).Rellac
+//@   requires C20.inv: qInv(self) && qBounded(self)
+//@   loop#1 invariant qShape(self) && qNodesOk(self) && qStorageSame(self) && self.nodeIndex <= old(self.nodeIndex) && baseNodeSize >= 1 && self.tailNodeIndex == old(self.tailNodeIndex)
+//@   ensures C20.rellac: qInv(self) && qEmpty(self) && self.headNodeIndex == 0 && self.headQueueIndex == 0 && isnil(result)
+//@   modifies LockManagerQueue.*, E_LJPserver_LockManager, E_int32
+
+//@ func (*LockManagerQueue).IterNodes
+//@   requires C20.inv: qInv(self)
+//@   ensures C20.iternodes: arr(result) == arr(self.queues) && off(result) == off(self.queues) + self.headNodeIndex && len(result) == self.tailNodeIndex - self.headNodeIndex + 1
+//@   modifies nothing
+
+//@ func (*LockManagerQueue).IterNodeQueues
+//@   requires C20.inv: qInv(self) && 0 <= index && index <= self.tailNodeIndex - self.headNodeIndex
+//@   ensures C20.iterqueues: arr(result) == arr(self.queues[self.headNodeIndex + index]) && off(result) == ite(index == 0, self.headQueueIndex, 0) && off(result) + len(result) == ite(self.headNodeIndex + index == self.tailNodeIndex, self.tailQueueIndex, self.nodeQueueSizes[self.headNodeIndex + index])
+//@   modifies nothing
